@@ -273,9 +273,11 @@ def run(chk, prog, tier):
     dead_reckoning_marg(chk, prog)
     angvel(chk, prog)
     # the constructor route reaches the same integrator with the requested method and order (same rule as C06's PROTOCOL)
-    from props.c06 import protocol
-    protocol(chk, prog, prog.cls("ahrs/filters/angular.py::AngularRate"), ["update"])
-    chk.require_count("PROTOCOL", 1)
+    # and the batch routines of the filters whose dead-reckoning / prediction steps are decided above run exactly those steps, row by row
+    from props.c06 import protocol, STREAMING
+    for key in ("angular.py::AngularRate", "madgwick.py::Madgwick", "mahony.py::Mahony", "aqua.py::AQUA", "ekf.py::EKF", "roleq.py::ROLEQ"):
+        protocol(chk, prog, prog.cls("ahrs/filters/" + key), STREAMING[key])
+    chk.require_count("PROTOCOL", 9)
     chk.require_count("OMEGA.action", 5)
     chk.require_count("STEP.null-acc", 3)
     canaries(chk, prog)
